@@ -1,5 +1,4 @@
 // ===================== sha3 (external): SHAKE256 as an extendable-output function, SHA3-512 =====================
-pub uninterp spec fn sha3_512(input: Seq<u8>) -> Seq<u8>;
 #[verifier::external_body]
 pub struct Shake256 { b: Vec<u8> }
 pub struct Shake256ReaderCore;
